@@ -265,6 +265,18 @@ def body(ctx):
                     ctx.violation('C05.SuccessIffCnxn', dict(kind='handshake', mode=mode, script=sc, outcome=repr(o)[:120], available=bool(sess.device.available)))
                 traces.append(tr)
                 meta.append((mode, [sc]))
+        # a slow link (every transport call takes a third of a second): several keys are tried, each answer arrives well within the read
+        # timeout of 3 s, the whole exchange takes longer; stray packets in front of the later answers.  The key the device accepts is reached.
+        for nk, strays in ((4, [0, 0, 1, 1, 1]), (3, [0, 1, 0, 2]), (4, [1, 1, 1, 1, 1])):
+            sc = dict(nkeys=nk, need_auth=True, accept_at=nk, pub_accept=False, bad_at=0, strays=strays, md=4096, cb=False)
+            dev_ = simdev.SimDevice(seed=ctx.seed + 470 + nk)
+            sess_ = env.Session(mode, dev_, log_io=True, banner=b'verif-host', tick=0.33)
+            tr, o, sess = run_script(mode, sc, sess=sess_, seed=ctx.seed + 470 + nk)
+            sess.close_loop()
+            if not (o.kind == 'ret' and o.value is True):
+                ctx.violation('C05.SuccessWhenAccepted', dict(kind='handshake on a slow link', mode=mode, script=sc, outcome=repr(o)[:160]))
+            traces.append(tr)
+            meta.append((mode, [sc]))
         # stray packets in front of the CNXN that follows the public key, with every kind of auth timeout
         for at in (None, 0, 0.5, 7.0):
             for strays in ([0, 0, 0, 2], [1, 1, 1, 1], [0, 0, 0, 4]):
